@@ -18,7 +18,7 @@ func c09Params(tier string) []*kvops.Params {
 		ev("put", 0, 0, ""), ev("put", 0, 0, "NX"), ev("put", 0, 0, "XX"), ev("put", 0, 0, "PX"), ev("put", 0, 0, "EX"),
 		ev("put", 0, 0, "PXAT"), ev("put", 0, 0, "EXAT"),
 		ev("expire", 0, 0, ""), ev("get", 0, 0, ""), ev("getput", 0, 0, ""), ev("incr", 0, 1, ""),
-		ev("tick", 0, 1499, ""), ev("tick", 0, 1, ""), ev("tick", 0, 500, ""), ev("tick", 0, 1000, ""),
+		ev("tick", 0, 1499, ""), ev("tick", 0, 1, ""), ev("tick", 0, 500, ""), ev("tick", 0, 1000, ""), ev("tick", 0, 300, ""),
 		ev("evict", 0, 0, ""),
 		// a lock is a key with an expiry too: its timeout and a later Lease must be honoured to the millisecond
 		ev("lock", 0, 1, ""), ev("lease", 0, 0, ""),
